@@ -108,6 +108,8 @@ def expected_error(spec):
 
 def property_verdict(ops, toks):
     """None when the implementation's outputs on this (fully drained) sequence satisfy C14, else what fails"""
+    if toks and toks[-1][0] == "HANG":
+        return "operation %s did not return within 2 s although the message it waits for had arrived" % ops[len(toks) - 1]
     if len(toks) != len(ops):
         return "harness produced %d results for %d operations" % (len(toks), len(ops))
     arrived = {}          # ident -> (index of arrival, accepted)
@@ -219,7 +221,7 @@ def run(ctx):
                 "errors; distinct serials and reply serials; members from a pool so that the member filters split them), all "
                 "permutations of message sets of size <= 4 and random orders of size 5-6, interleaved with generated try_*/wait_*/"
                 "refill_once/refill_all operations, followed by a complete drain (refill_all, then try_get_signal/call n+1 times and "
-                "try_get_response twice per reply serial). Blocking operations use Timeout::Infinite when the model finds the "
+                "try_get_response twice per reply serial). Blocking operations use a 2 s timeout (standing in for Infinite) when the model finds the "
                 "message, Nonblock when it does not and the socket is non-empty, Duration(1ms) on an empty socket. non-trivial = at "
                 "least two arrivals and a wait/refill operation before the final one; distinct = distinct (filter, sequence)")
     ctx.trusted = ["Coq 8.16.1 kernel (coqc), no native_compute", "extraction with ExtrOcamlBasic only, ocamlfind ocamlopt 4.13.1",
